@@ -36,6 +36,16 @@ class Undecided(Exception):
     pass
 
 
+def crash_tail(work, n=1500):
+    """What the drivers of this run wrote before dying of a fatal panic (first lines of every crash)."""
+    try:
+        t = open(work.crashlog, errors="replace").read()
+    except Exception:
+        return ""
+    heads = [c[:n] for c in t.split("\n\n\n") if c.strip()] or [t[:n]]
+    return "\n".join(heads)[:3 * n]
+
+
 def log(*a):
     print("[check]", *a, flush=True)
 
@@ -43,6 +53,9 @@ def log(*a):
 class Work:
     def __init__(self, prop):
         self.dir = tempfile.mkdtemp(prefix="kbverif_%s_" % prop)
+        # every driver process appends the trace of a fatal panic here before it dies
+        self.crashlog = os.path.join(self.dir, "crash.log")
+        GOENV["KBVERIF_CRASHLOG"] = self.crashlog
         self.spec = os.path.join(self.dir, "spec")
         shutil.copytree(SPEC, self.spec)
         self.n = 0
@@ -207,7 +220,7 @@ def replay(work, binp, behaviours, engine, shards, flags=None, timeout=1800, nam
         if rc != 0 or not os.path.exists(rp):
             with open(lg.name, errors="replace") as f:
                 t = f.read()[-3000:]
-            raise Undecided("replay driver failed (rc=%s, engine=%s):\n%s" % (rc, engine, t))
+            raise Undecided("replay driver failed (rc=%s, engine=%s):\n%s\n%s" % (rc, engine, t, crash_tail(work)))
         reports.append(json.load(open(rp)))
         traces.append(tr)
     return reports, traces
